@@ -247,13 +247,30 @@ class Ctx:
             json.dump({"Replace": ov}, fh)
         return p
 
+    def modfile(self):
+        """Private copy of harness/go.mod (+ go.sum) for this run, `replace` pointing at REPO.
+        Builds use -modfile so that harness/go.mod is never rewritten by concurrent checks and
+        VERIF_REPO can point the whole check at another tree (a scratch worktree)."""
+        p = os.path.join(self.scratch, "go.mod")
+        if not os.path.exists(p):
+            txt = open(os.path.join(HARNESS, "go.mod")).read()
+            txt = re.sub(r"replace github.com/bfenetworks/bfe => \S+",
+                         "replace github.com/bfenetworks/bfe => " + REPO, txt)
+            open(p, "w").write(txt)
+            sumtxt = open(os.path.join(REPO, "go.sum")).read()
+            extra = os.path.join(HARNESS, "go.sum.extra")
+            if os.path.exists(extra):
+                sumtxt += open(extra).read()
+            open(os.path.join(self.scratch, "go.sum"), "w").write(sumtxt)
+        return p
+
     def build(self, cmdname, race=False):
         key = (cmdname, race)
         if key in self._bins:
             return self._bins[key]
-        ensure_go_sum()
         out = os.path.join(self.scratch, "vh_%s%s" % (cmdname, "_race" if race else ""))
-        cmd = ["go", "build", "-tags", "verif", "-overlay", self.overlay_file(), "-o", out]
+        cmd = ["go", "build", "-modfile=" + self.modfile(), "-tags", "verif",
+               "-overlay", self.overlay_file(), "-o", out]
         if race:
             cmd.append("-race")
         cmd.append("./cmd/" + cmdname)
@@ -317,6 +334,15 @@ class Ctx:
         if self._findings is None:
             p = os.path.join(VERIF, "known_findings.json")
             self._findings = json.load(open(p)).get("findings", []) if os.path.exists(p) else []
+            d = os.path.join(VERIF, "findings.d")     # per-family drafts, merged by lib/mkmanifest.py
+            have = {f["id"] for f in self._findings}
+            if os.path.isdir(d):
+                for fn in sorted(os.listdir(d)):
+                    if fn.endswith(".json"):
+                        for f in json.load(open(os.path.join(d, fn))).get("findings", []):
+                            if f["id"] not in have:
+                                self._findings.append(f)
+                                have.add(f["id"])
         return self._findings
 
     def report(self, sig, detail, case=None, cmd=None, harness=None):
